@@ -56,10 +56,28 @@ func c12place(n map[string]interface{}, path []string, v interface{}) {
 func (c12) Case(c *core.Ctx) {
 	r := c.R
 	keys := keyAlphabet(r, c07keys)
-	g := jv.GenOpt{Keys: keys, MaxFan: 3, WideProb: 40, EmptyConts: true, Nulls: true, Scalars: c07scalar}.Fresh()
+	// chain mode: 3..5 pairs whose new paths form a chain P, P, .., P.sub[, P.sub.x] in that order (values of every
+	// kind - scalars, maps, lists, lists inside lists - are put at P one after the other, then a later pair has to
+	// walk through what is there). Only the receiver clause is decided for such lists (overlapping new paths).
+	chain := r.Intn(5) == 0
+	g := jv.GenOpt{Keys: keys, MaxFan: 3, WideProb: 40, EmptyConts: true, Nulls: true, Scalars: c07scalar, ListInList: chain && r.Intn(2) == 0}.Fresh()
 	root := jv.M{"doc": g.Value(r, 1+r.Intn(5), false)}
 	if r.Intn(4) == 0 {
 		root = g.Map(r, 1+r.Intn(4))
+	}
+	plantedLL, llTwo := false, false
+	if chain && r.Intn(2) == 0 {
+		plantedLL = true
+		// a list whose only member is a list that holds a map: the old path "ll" (or "ll[0]") yields ONE value, a list
+		inner := jv.L{g.Map(r, 1+r.Intn(2)), "s", g.Map(r, 1)}
+		if r.Intn(2) == 0 {
+			inner = jv.L{nil, g.Map(r, 2)}
+		}
+		root["ll"] = jv.L{inner}
+		if r.Intn(3) == 0 {
+			root["ll"] = jv.L{"first", inner}
+			llTwo = true
+		}
 	}
 	if r.Intn(6) == 0 {
 		c.Add("shape:aliased-submaps", int64(jv.Alias(r, root, 1+r.Intn(2), nil)))
@@ -68,6 +86,10 @@ func (c12) Case(c *core.Ctx) {
 	orig := jv.Copy(root)
 	anyWild := false
 	np := 1 + r.Intn(4)
+	if chain {
+		np = 3 + r.Intn(3)
+		c.Count("pairs:chain")
+	}
 	type pair struct {
 		old  []seg
 		newp []string
@@ -116,6 +138,25 @@ func (c12) Case(c *core.Ctx) {
 		default:
 			newp = []string{fmt.Sprintf("n%d", j)}
 		}
+		if chain {
+			ext := 1 + r.Intn(2) // the last one or two pairs extend P
+			switch {
+			case j < np-ext:
+				newp = []string{"n0"}
+			case j == np-1 && ext == 2 && r.Intn(2) == 0:
+				newp = []string{"n0", "sub", "x"}
+			default:
+				newp = []string{"n0", "sub"}
+			}
+			if plantedLL && j == 0 {
+				segs = []seg{{name: "ll", idx: -1}}
+				if llTwo {
+					segs[0].idx = 1
+				} else if r.Intn(2) == 0 {
+					segs[0].idx = 0
+				}
+			}
+		}
 		p := pair{old: segs, newp: newp}
 		p.spec = pathString(segs) + ":" + strings.Join(newp, ".")
 		if newp[len(newp)-1] == "" {
@@ -123,7 +164,7 @@ func (c12) Case(c *core.Ctx) {
 		} else if r.Intn(12) == 0 {
 			p.spec += "."
 		}
-		if numIndexed(segs) == 0 && !hasWildcard(segs) && r.Intn(5) == 0 {
+		if numIndexed(segs) == 0 && !hasWildcard(segs) && r.Intn(5) == 0 && !chain {
 			// shorthand "old" == "old:old"
 			p.spec = pathString(segs)
 			p.newp = strings.Split(p.spec, ".")
